@@ -252,7 +252,9 @@ def decode_number(data_raw: int, bit_offset: int, bit_length: int, signed: bool,
         if number_int & signed_mask != 0:
             number_int -= (1 << bit_length)
 
-    if bit_length <= 3:
+    if bit_length == 1:
+        pass  # a single bit has no room for a "not available" code: both 0 and 1 are values
+    elif bit_length <= 3:
         if number_int == (1 << bit_length) - 1:
             return None
     elif bit_length >= 4:
@@ -287,6 +289,8 @@ def encode_number(
     """
     if value is None:
         # Set to "not available" value
+        if bit_length == 1:
+            raise ValueError("A one-bit field has no 'not available' value")
         if bit_length <= 3:
             return (1 << bit_length) - 1
         elif signed:
@@ -304,6 +308,8 @@ def encode_number(
     else:
         min_val = 0
         max_val = (1 << bit_length) - 2  # reserve max for "not available"
+        if bit_length == 1:
+            max_val = 1  # nothing to reserve in a single bit
 
     if not (min_val <= number_int <= max_val):
         raise ValueError(f"Value {value} out of range after scaling")
